@@ -35,15 +35,17 @@ fn strip_underlines(literal: &[u8]) -> (r: Option<Vec<u8>>)
         r.is_some() <==> legal(literal@),
         r.is_some() ==> r.unwrap()@ == strip(literal@),
 //@@ ENDSIG
+//@@ NAME prev <<<let mut (\w+) = b'\\0';>>>
+//@@ NAME dup <<<let mut (\w+) = Vec::<u8>::new\(\);>>>
 //@@ SUB 1 <<<for p in literal {>>> ==> <<<for p in it: literal>>>
 //@@ AFTER 1 <<<for p in it: literal>>>
         invariant
-            (it.index@ == 0 ==> prev == 0u8),
-            (it.index@ > 0 ==> prev == literal@[it.index@ - 1]),
+            (it.index@ == 0 ==> $prev$ == 0u8),
+            (it.index@ > 0 ==> $prev$ == literal@[it.index@ - 1]),
             // everything before the cursor is legal, except that an underscore at the very end still awaits its right neighbour
             forall|k: int| 0 <= k < it.index@ && #[trigger] literal@[k] == 95u8 ==>
                 (k > 0 && is_digit(literal@[k - 1]) && (k + 1 < it.index@ ==> is_digit(literal@[k + 1]))),
-            dup@ == strip(literal@.take(it.index@ as int)),
+            $dup$@ == strip(literal@.take(it.index@ as int)),
     {
         proof {
             let i = it.index@ as int;
